@@ -1,9 +1,10 @@
 /-
 C11 — helper lemmas for the arena model (hook scripts): with the re-entrancy guard (`g = true`)
-every public lifecycle call, whatever the hook scripts do (calls on any module, add(), nested
-calls from nested hooks …), moves the hook automaton of EVERY module exactly as it moves that
-module's `state_`; a module that is inside one of its own lifecycle functions is not touched
-by anything its hooks trigger.
+and the catch-roll-back-rethrow of patches/C11-07 (`x = true`) every public lifecycle call, whatever
+the hook scripts do (calls on any module, add(), nested calls from nested hooks, exceptions thrown
+from `onInit`/`onStart` or from anything they call …), moves the hook automaton of EVERY module
+exactly as it moves that module's `state_` — also when the call ends with an exception; a module
+that is inside one of its own lifecycle functions is not touched by anything its hooks trigger.
 -/
 import TboxModel.C11.Arena
 import TboxModel.C11.Track
@@ -94,7 +95,7 @@ theorem addOp_same (σ σ' : Store) (p c : Nat) (req ok : Bool) (h : addOp σ p 
   split at h
   · simp at h
   split at h
-  · simp at h
+  · simp only [Option.some.injEq, Prod.mk.injEq] at h; rw [← h.1]; exact ⟨rfl, rfl⟩
   split at h
   · simp only [Option.some.injEq, Prod.mk.injEq] at h; rw [← h.1]; exact ⟨rfl, rfl⟩
   split at h
@@ -167,44 +168,50 @@ theorem Prog.finishSet {n : Nat} {σ0 σ : Store} {tr : List Ev} {h s1 : St} (p 
 
 /-- finish without touching `state_` (it already equals the automaton's state) -/
 theorem Prog.finishSame {n : Nat} {σ0 σ : Store} {tr : List Ev} {h : St} (p : Prog n σ0 σ tr h h)
-    (ret thrown oof : Bool) : BodyOK σ0 ⟨σ, ret, tr, thrown, oof⟩ n := by
+    (ret thrown oof td : Bool) : BodyOK σ0 ⟨σ, ret, tr, thrown, oof, td⟩ n := by
   obtain ⟨p1, p2, p3, p4⟩ := p
   exact ⟨p1, p2, by simp only; rw [p3, p4]⟩
 
-/-! ### the induction on fuel -/
+/-! ### the induction on fuel
+
+`g = true` (re-entrancy guard), `x = true` (patches/C11-07).  The statements hold for EVERY result that is not
+`bad` — in particular for results with `thrown = true`: an exception that comes out of an `onInit`/`onStart`
+hook (or out of a script run by one) is rolled back by every frame it passes. -/
+
+macro "bad_split" : tactic => `(tactic| (simp only [Res.bad, Res.ok] at *; grind))
 
 structure P (f : Nat) : Prop where
-  call : ∀ σ n a, (aCall true f σ n a true).thrown = false →
-    Q σ (aCall true f σ n a true).σ (aCall true f σ n a true).tr
-  init : ∀ σ n, (σ.get n).busy = true → (bInit true f σ n).thrown = false → BodyOK σ (bInit true f σ n) n
-  start : ∀ σ n, (σ.get n).busy = true → (bStart true f σ n).thrown = false → BodyOK σ (bStart true f σ n) n
-  stop : ∀ σ n, (σ.get n).busy = true → (bStop true f σ n true).thrown = false → BodyOK σ (bStop true f σ n true) n
-  cleanup : ∀ σ n, (σ.get n).busy = true → (bCleanup true f σ n true).thrown = false → BodyOK σ (bCleanup true f σ n true) n
-  fwd : ∀ σ n a i, (fwdLoop true f σ n a i).thrown = false → Q σ (fwdLoop true f σ n a i).σ (fwdLoop true f σ n a i).tr
-  rev : ∀ σ n a i, (revLoop true f σ n a i).thrown = false → Q σ (revLoop true f σ n a i).σ (revLoop true f σ n a i).tr
-  hook : ∀ σ n h, (runHook true f σ n h).thrown = false → Q σ (runHook true f σ n h).σ (runHook true f σ n h).tr
-  acts : ∀ σ as, (runActs true f σ as).thrown = false → Q σ (runActs true f σ as).σ (runActs true f σ as).tr
+  call : ∀ σ n a, (aCall true true f σ n a true).bad = false →
+    Q σ (aCall true true f σ n a true).σ (aCall true true f σ n a true).tr
+  init : ∀ σ n, (σ.get n).busy = true → (bInit true true f σ n).bad = false → BodyOK σ (bInit true true f σ n) n
+  start : ∀ σ n, (σ.get n).busy = true → (bStart true true f σ n).bad = false → BodyOK σ (bStart true true f σ n) n
+  stop : ∀ σ n, (σ.get n).busy = true → (bStop true true f σ n true).bad = false → BodyOK σ (bStop true true f σ n true) n
+  cleanup : ∀ σ n, (σ.get n).busy = true → (bCleanup true true f σ n true).bad = false → BodyOK σ (bCleanup true true f σ n true) n
+  fwd : ∀ σ n a i, (fwdLoop true true f σ n a i).bad = false → Q σ (fwdLoop true true f σ n a i).σ (fwdLoop true true f σ n a i).tr
+  rev : ∀ σ n a i, (revLoop true true f σ n a i).bad = false → Q σ (revLoop true true f σ n a i).σ (revLoop true true f σ n a i).tr
+  hook : ∀ σ n h, (runHook true true f σ n h).bad = false → Q σ (runHook true true f σ n h).σ (runHook true true f σ n h).tr
+  acts : ∀ σ as, (runActs true true f σ as).bad = false → Q σ (runActs true true f σ as).σ (runActs true true f σ as).tr
 
 theorem P.zero : P 0 := by
-  constructor <;> intros <;> simp_all [aCall, bInit, bStart, bStop, bCleanup, fwdLoop, revLoop, runHook, runActs, Res.outOfFuel]
+  constructor <;> intros <;> simp_all [aCall, bInit, bStart, bStop, bCleanup, fwdLoop, revLoop, runHook, runActs, Res.outOfFuel, Res.bad]
 
-theorem P.succ_acts {f : Nat} (ih : P f) : ∀ σ as, (runActs true (f + 1) σ as).thrown = false →
-    Q σ (runActs true (f + 1) σ as).σ (runActs true (f + 1) σ as).tr := by
+theorem P.succ_acts {f : Nat} (ih : P f) : ∀ σ as, (runActs true true (f + 1) σ as).bad = false →
+    Q σ (runActs true true (f + 1) σ as).σ (runActs true true (f + 1) σ as).tr := by
   intro σ as
   cases as with
   | nil => intro _; simp only [runActs, Res.ok]; exact Q.refl σ
   | cons a rest =>
     cases a with
-    | throw => simp [runActs]
+    | throw => intro _; simp only [runActs]; exact Q.refl σ
     | call t ap =>
       simp only [runActs]
       split
       · split
-        · simp
-        · rename_i hnt
-          intro h
-          have h1 := ih.call σ t ap (by simpa using hnt)
-          have h2 := ih.acts _ rest h
+        · intro h
+          exact ih.call σ t ap (by bad_split)
+        · intro h
+          have h1 := ih.call σ t ap (by bad_split)
+          have h2 := ih.acts (aCall true true f σ t ap true).σ rest (by bad_split)
           exact h1.trans h2
       · exact ih.acts σ rest
     | add p c req =>
@@ -216,8 +223,8 @@ theorem P.succ_acts {f : Nat} (ih : P f) : ∀ σ as, (runActs true (f + 1) σ a
         have h1 : Q σ σ' [] := fun m => Qm.same (addOp_same σ σ' p c req ok hadd m).1 (addOp_same σ σ' p c req ok hadd m).2
         simpa using h1.trans (ih.acts σ' rest h)
 
-theorem P.succ_hook {f : Nat} (ih : P f) : ∀ σ n h, (runHook true (f + 1) σ n h).thrown = false →
-    Q σ (runHook true (f + 1) σ n h).σ (runHook true (f + 1) σ n h).tr := by
+theorem P.succ_hook {f : Nat} (ih : P f) : ∀ σ n h, (runHook true true (f + 1) σ n h).bad = false →
+    Q σ (runHook true true (f + 1) σ n h).σ (runHook true true (f + 1) σ n h).tr := by
   intro σ n h hth
   simp only [runHook] at hth ⊢
   have h1 : Q σ (σ.set n ((σ.get n).clearSlot h)) [] := by
@@ -227,8 +234,8 @@ theorem P.succ_hook {f : Nat} (ih : P f) : ∀ σ n h, (runHook true (f + 1) σ 
     · exact Qm.same (by rw [get_set_other _ _ _ _ hm]) (by rw [get_set_other _ _ _ _ hm])
   simpa using h1.trans (ih.acts _ _ hth)
 
-theorem P.succ_rev {f : Nat} (ih : P f) : ∀ σ n a i, (revLoop true (f + 1) σ n a i).thrown = false →
-    Q σ (revLoop true (f + 1) σ n a i).σ (revLoop true (f + 1) σ n a i).tr := by
+theorem P.succ_rev {f : Nat} (ih : P f) : ∀ σ n a i, (revLoop true true (f + 1) σ n a i).bad = false →
+    Q σ (revLoop true true (f + 1) σ n a i).σ (revLoop true true (f + 1) σ n a i).tr := by
   intro σ n a i
   cases i with
   | zero => intro _; simp only [revLoop, Res.ok]; exact Q.refl σ
@@ -238,166 +245,295 @@ theorem P.succ_rev {f : Nat} (ih : P f) : ∀ σ n a i, (revLoop true (f + 1) σ
     · exact ih.rev σ n a j
     · rename_i c req hk
       split
-      · simp
-      · rename_i hnt
-        intro h
-        exact (ih.call σ c a (by simpa using hnt)).trans (ih.rev _ n a j h)
+      · intro h; exact ih.call σ c a (by bad_split)
+      · intro h
+        exact (ih.call σ c a (by bad_split)).trans (ih.rev (aCall true true f σ c a true).σ n a j (by bad_split))
 
-theorem P.succ_fwd {f : Nat} (ih : P f) : ∀ σ n a i, (fwdLoop true (f + 1) σ n a i).thrown = false →
-    Q σ (fwdLoop true (f + 1) σ n a i).σ (fwdLoop true (f + 1) σ n a i).tr := by
+theorem P.succ_fwd {f : Nat} (ih : P f) : ∀ σ n a i, (fwdLoop true true (f + 1) σ n a i).bad = false →
+    Q σ (fwdLoop true true (f + 1) σ n a i).σ (fwdLoop true true (f + 1) σ n a i).tr := by
   intro σ n a i
-  simp only [fwdLoop]
+  simp only [fwdLoop, Bool.not_true, Bool.and_false, Bool.false_eq_true, if_false]
   split
   · intro _; simp only [Res.ok]; exact Q.refl σ
   · rename_i c req hk
     split
-    · simp
-    · rename_i hnt
-      have h1 := ih.call σ c a (by simpa using hnt)
-      split
-      · intro h; exact h1.trans (ih.rev _ n _ i h)
-      · intro h; exact h1.trans (ih.fwd _ n a (i + 1) h)
+    · intro h; exact (ih.call σ c a (by bad_split)).trans (ih.rev (aCall true true f σ c a true).σ n (undo a) i (by bad_split))
+    · intro h; exact (ih.call σ c a (by bad_split)).trans (ih.fwd (aCall true true f σ c a true).σ n a (i + 1) (by bad_split))
 
 theorem Prog.start' {n : Nat} {σ0 : Store} {s : St} (hb : (σ0.get n).busy = true) (hs : (σ0.get n).st = s) :
     Prog n σ0 σ0 [] s s := by
   have := Prog.start hb; rwa [hs] at this
 
-theorem P.succ_init {f : Nat} (ih : P f) : ∀ σ n, (σ.get n).busy = true → (bInit true (f + 1) σ n).thrown = false →
-    BodyOK σ (bInit true (f + 1) σ n) n := by
+/-- finish by `state_ = h`, any flags -/
+theorem Prog.finishSet' {n : Nat} {σ0 σ : Store} {tr : List Ev} {h s1 : St} (p : Prog n σ0 σ tr h s1) (ret th o t : Bool) :
+    BodyOK σ0 ⟨σ.setSt n h, ret, tr, th, o, t⟩ n := by
+  have := p.finishSet ret
+  exact this
+
+/-! ### `stop()` / `cleanup()` throw only when a teardown hook throws (or the fuel runs out) -/
+
+def isDown : Api → Bool | .stop => true | .cleanup => true | _ => false
+
+theorem undo_isDown (a : Api) (h : a = .init ∨ a = .start ∨ isDown a = true) : isDown (undo a) = true := by
+  cases a <;> simp_all [undo, isDown]
+
+structure T (f : Nat) : Prop where
+  call : ∀ σ n a own, isDown a = true → (aCall true true f σ n a own).thrown = true → (aCall true true f σ n a own).bad = true
+  stop : ∀ σ n own, (bStop true true f σ n own).thrown = true → (bStop true true f σ n own).bad = true
+  cleanup : ∀ σ n own, (bCleanup true true f σ n own).thrown = true → (bCleanup true true f σ n own).bad = true
+  rev : ∀ σ n a i, isDown a = true → (revLoop true true f σ n a i).thrown = true → (revLoop true true f σ n a i).bad = true
+
+theorem T.zero : T 0 := by
+  constructor <;> intros <;> simp [aCall, bStop, bCleanup, revLoop, Res.outOfFuel, Res.bad]
+
+theorem T.succ {f : Nat} (ih : T f) : T (f + 1) := by
+  constructor
+  · intro σ n a own hd
+    simp only [aCall, Bool.true_and, if_true]
+    split
+    · simp [Res.ok]
+    · cases a with
+      | init => simp [isDown] at hd
+      | start => simp [isDown] at hd
+      | stop => exact ih.stop _ n own
+      | cleanup => exact ih.cleanup _ n own
+  · intro σ n own
+    simp only [bStop]
+    split
+    · simp [Res.ok]
+    split
+    · rename_i hl
+      intro _
+      have := ih.rev σ n .stop _ rfl hl
+      bad_split
+    split
+    · split
+      · intro _; simp [Res.bad]
+      · simp
+    · simp
+  · intro σ n own
+    simp only [bCleanup]
+    split
+    · simp [Res.ok]
+    split
+    · exact ih.stop σ n own
+    split
+    · rename_i hl
+      intro _
+      have := ih.rev _ n .cleanup _ rfl hl
+      bad_split
+    split
+    · split
+      · intro _; simp [Res.bad]
+      · simp
+    · simp
+  · intro σ n a i hd
+    cases i with
+    | zero => simp [revLoop, Res.ok]
+    | succ j =>
+      simp only [revLoop]
+      split
+      · exact ih.rev σ n a j hd
+      · rename_i c req hk
+        split
+        · rename_i hr
+          intro _
+          have := ih.call σ c a true hd hr
+          bad_split
+        · intro hl
+          have := ih.rev _ n a j hd hl
+          bad_split
+
+theorem T.all : ∀ f, T f
+  | 0 => T.zero
+  | f + 1 => T.succ (T.all f)
+
+/-- the loop of `initialize()` / `start()`: an exception that comes out WITHOUT the roll-back having completed
+(`ret = false`) came out of the roll-back itself -/
+theorem fwd_thrown_bad : ∀ f σ n a i, (fwdLoop true true f σ n a i).thrown = true → (fwdLoop true true f σ n a i).ret = false →
+    (fwdLoop true true f σ n a i).bad = true
+  | 0, σ, n, a, i => by simp [fwdLoop, Res.outOfFuel, Res.bad]
+  | f + 1, σ, n, a, i => by
+    simp only [fwdLoop, Bool.not_true, Bool.and_false, Bool.false_eq_true, if_false]
+    split
+    · simp [Res.ok]
+    · rename_i c req hk
+      split
+      · intro h1 h2
+        have hb : (revLoop true true f (aCall true true f σ c a true).σ n (undo a) i).thrown = true := by
+          simp only [Bool.or_eq_true, Bool.and_eq_false_imp, Bool.not_eq_eq_eq_not, Bool.not_false] at h1 h2
+          grind
+        have := (T.all f).rev _ n (undo a) i (by cases a <;> rfl) hb
+        bad_split
+      · intro h1 h2
+        have := fwd_thrown_bad f (aCall true true f σ c a true).σ n a (i + 1) h1 h2
+        bad_split
+
+theorem P.succ_init {f : Nat} (ih : P f) : ∀ σ n, (σ.get n).busy = true → (bInit true true (f + 1) σ n).bad = false →
+    BodyOK σ (bInit true true (f + 1) σ n) n := by
   intro σ n hb
-  simp only [bInit]
+  simp only [bInit, Bool.true_and]
   split
-  · intro _; exact (Prog.start hb).finishSame false false false
+  · intro _; exact (Prog.start hb).finishSame false false false false
   rename_i hst
   have hst : (σ.get n).st = .none := by simpa using hst
   have p0 := Prog.start' hb hst
   split
-  · intro _; exact p0.finishSame false false false
+  · intro _; exact p0.finishSame false false false false
   split
-  · simp
-  rename_i hnt
-  have p1 := p0.nested (ih.hook σ n .onInit (by simpa using hnt))
-  split
-  · intro _
+  · intro h
+    have p1 := p0.nested (ih.hook σ n .onInit (by bad_split))
     have p2 := p1.own (h' := .none) (Ev.init n false) rfl (by simp [hookStep, Ev.id])
-    simpa [Res.ok] using p2.finishSame false false false
-  have p2 := p1.own (h' := .inited) (Ev.init n true) rfl (by simp [hookStep, Ev.id])
+    exact p2.finishSame _ _ _ _
   split
-  · simp
-  rename_i hlt
-  have p3 := p2.nested (ih.fwd _ n .init 0 (by simpa using hlt))
+  · intro h
+    have p1 := p0.nested (ih.hook σ n .onInit (by bad_split))
+    have p2 := p1.own (h' := .none) (Ev.init n false) rfl (by simp [hookStep, Ev.id])
+    exact p2.finishSame _ _ _ _
   split
-  · intro _
-    simpa [Res.ok, List.append_assoc] using p3.finishSet true
-  · intro hct
-    have p4 := p3.nested (ih.hook _ n .onCleanup (by simpa using hct))
+  · rename_i hl
+    intro h
+    simp only [Bool.and_eq_true, Bool.not_eq_eq_eq_not, Bool.not_true] at hl
+    have := fwd_thrown_bad f _ n .init 0 hl.1 hl.2
+    bad_split
+  split
+  · intro h
+    have p1 := p0.nested (ih.hook σ n .onInit (by bad_split))
+    have p2 := p1.own (h' := .inited) (Ev.init n true) rfl (by simp [hookStep, Ev.id])
+    have p3 := p2.nested (ih.fwd (runHook true true f σ n .onInit).σ n .init 0 (by bad_split))
+    exact p3.finishSet' _ _ _ _
+  · intro h
+    have p1 := p0.nested (ih.hook σ n .onInit (by bad_split))
+    have p2 := p1.own (h' := .inited) (Ev.init n true) rfl (by simp [hookStep, Ev.id])
+    have p3 := p2.nested (ih.fwd (runHook true true f σ n .onInit).σ n .init 0 (by bad_split))
+    have p4 := p3.nested (ih.hook (fwdLoop true true f (runHook true true f σ n .onInit).σ n .init 0).σ n .onCleanup (by bad_split))
     have p5 := p4.own (h' := .none) (Ev.cleanup n) rfl (by simp [hookStep, Ev.id])
-    have := p5.finishSame false (runHook true f (fwdLoop true f (runHook true f σ n .onInit).σ n .init 0).σ n .onCleanup).thrown
-      (runHook true f (fwdLoop true f (runHook true f σ n .onInit).σ n .init 0).σ n .onCleanup).oof
+    have := p5.finishSame false
+      ((fwdLoop true true f (runHook true true f σ n .onInit).σ n .init 0).thrown ||
+        (runHook true true f (fwdLoop true true f (runHook true true f σ n .onInit).σ n .init 0).σ n .onCleanup).thrown)
+      ((runHook true true f σ n .onInit).oof || (fwdLoop true true f (runHook true true f σ n .onInit).σ n .init 0).oof ||
+        (runHook true true f (fwdLoop true true f (runHook true true f σ n .onInit).σ n .init 0).σ n .onCleanup).oof)
+      ((runHook true true f σ n .onInit).td || (fwdLoop true true f (runHook true true f σ n .onInit).σ n .init 0).td ||
+        (runHook true true f (fwdLoop true true f (runHook true true f σ n .onInit).σ n .init 0).σ n .onCleanup).td ||
+        (runHook true true f (fwdLoop true true f (runHook true true f σ n .onInit).σ n .init 0).σ n .onCleanup).thrown)
     simpa [List.append_assoc] using this
 
-theorem P.succ_start {f : Nat} (ih : P f) : ∀ σ n, (σ.get n).busy = true → (bStart true (f + 1) σ n).thrown = false →
-    BodyOK σ (bStart true (f + 1) σ n) n := by
+theorem P.succ_start {f : Nat} (ih : P f) : ∀ σ n, (σ.get n).busy = true → (bStart true true (f + 1) σ n).bad = false →
+    BodyOK σ (bStart true true (f + 1) σ n) n := by
   intro σ n hb
-  simp only [bStart]
+  simp only [bStart, Bool.true_and]
   split
-  · intro _; exact (Prog.start hb).finishSame false false false
+  · intro _; exact (Prog.start hb).finishSame false false false false
   rename_i hst
   have hst : (σ.get n).st = .inited := by simpa using hst
   have p0 := Prog.start' hb hst
   split
-  · simp
-  rename_i hnt
-  have p1 := p0.nested (ih.hook σ n .onStart (by simpa using hnt))
-  split
-  · intro _
+  · intro h
+    have p1 := p0.nested (ih.hook σ n .onStart (by bad_split))
     have p2 := p1.own (h' := .inited) (Ev.start n false) rfl (by simp [hookStep, Ev.id])
-    simpa [Res.ok] using p2.finishSame false false false
-  have p2 := p1.own (h' := .running) (Ev.start n true) rfl (by simp [hookStep, Ev.id])
+    exact p2.finishSame _ _ _ _
   split
-  · simp
-  rename_i hlt
-  have p3 := p2.nested (ih.fwd _ n .start 0 (by simpa using hlt))
+  · intro h
+    have p1 := p0.nested (ih.hook σ n .onStart (by bad_split))
+    have p2 := p1.own (h' := .inited) (Ev.start n false) rfl (by simp [hookStep, Ev.id])
+    exact p2.finishSame _ _ _ _
   split
-  · intro _
-    simpa [Res.ok, List.append_assoc] using p3.finishSet true
-  · intro hct
-    have p4 := p3.nested (ih.hook _ n .onStop (by simpa using hct))
+  · rename_i hl
+    intro h
+    simp only [Bool.and_eq_true, Bool.not_eq_eq_eq_not, Bool.not_true] at hl
+    have := fwd_thrown_bad f _ n .start 0 hl.1 hl.2
+    bad_split
+  split
+  · intro h
+    have p1 := p0.nested (ih.hook σ n .onStart (by bad_split))
+    have p2 := p1.own (h' := .running) (Ev.start n true) rfl (by simp [hookStep, Ev.id])
+    have p3 := p2.nested (ih.fwd (runHook true true f σ n .onStart).σ n .start 0 (by bad_split))
+    exact p3.finishSet' _ _ _ _
+  · intro h
+    have p1 := p0.nested (ih.hook σ n .onStart (by bad_split))
+    have p2 := p1.own (h' := .running) (Ev.start n true) rfl (by simp [hookStep, Ev.id])
+    have p3 := p2.nested (ih.fwd (runHook true true f σ n .onStart).σ n .start 0 (by bad_split))
+    have p4 := p3.nested (ih.hook (fwdLoop true true f (runHook true true f σ n .onStart).σ n .start 0).σ n .onStop (by bad_split))
     have p5 := p4.own (h' := .inited) (Ev.stop n) rfl (by simp [hookStep, Ev.id])
-    have := p5.finishSame false (runHook true f (fwdLoop true f (runHook true f σ n .onStart).σ n .start 0).σ n .onStop).thrown
-      (runHook true f (fwdLoop true f (runHook true f σ n .onStart).σ n .start 0).σ n .onStop).oof
+    have := p5.finishSame false
+      ((fwdLoop true true f (runHook true true f σ n .onStart).σ n .start 0).thrown ||
+        (runHook true true f (fwdLoop true true f (runHook true true f σ n .onStart).σ n .start 0).σ n .onStop).thrown)
+      ((runHook true true f σ n .onStart).oof || (fwdLoop true true f (runHook true true f σ n .onStart).σ n .start 0).oof ||
+        (runHook true true f (fwdLoop true true f (runHook true true f σ n .onStart).σ n .start 0).σ n .onStop).oof)
+      ((runHook true true f σ n .onStart).td || (fwdLoop true true f (runHook true true f σ n .onStart).σ n .start 0).td ||
+        (runHook true true f (fwdLoop true true f (runHook true true f σ n .onStart).σ n .start 0).σ n .onStop).td ||
+        (runHook true true f (fwdLoop true true f (runHook true true f σ n .onStart).σ n .start 0).σ n .onStop).thrown)
     simpa [List.append_assoc] using this
 
-theorem P.succ_stop {f : Nat} (ih : P f) : ∀ σ n, (σ.get n).busy = true → (bStop true (f + 1) σ n true).thrown = false →
-    BodyOK σ (bStop true (f + 1) σ n true) n := by
+theorem bStop_inited : ∀ f σ n, (σ.get n).st ≠ .none → (bStop true true f σ n true).thrown = false →
+    ((bStop true true f σ n true).σ.get n).st = .inited
+  | 0, σ, n => by simp [bStop, Res.outOfFuel]
+  | f + 1, σ, n => by
+    intro h0
+    simp only [bStop, if_true]
+    split
+    · rename_i h1
+      intro _
+      simp only [Res.ok]
+      cases h2 : (σ.get n).st <;> simp_all
+    split
+    · simp
+    split
+    · simp
+    · intro _; exact (setSt_get _ n n .inited).1.trans (by simp)
+
+theorem P.succ_stop {f : Nat} (ih : P f) : ∀ σ n, (σ.get n).busy = true → (bStop true true (f + 1) σ n true).bad = false →
+    BodyOK σ (bStop true true (f + 1) σ n true) n := by
   intro σ n hb
-  simp only [bStop]
+  simp only [bStop, if_true]
   split
-  · intro _; exact (Prog.start hb).finishSame true false false
+  · intro _; exact (Prog.start hb).finishSame true false false false
   rename_i hst
   have hst : (σ.get n).st = .running := by simpa using hst
   have p0 := Prog.start' hb hst
   split
-  · simp
-  rename_i hlt
-  have p1 := p0.nested (ih.rev σ n .stop _ (by simpa using hlt))
-  simp only [if_true]
+  · intro h
+    have p1 := p0.nested (ih.rev σ n .stop (σ.get n).kids.length (by bad_split))
+    exact p1.finishSame _ _ _ _
   split
-  · simp
-  rename_i hnt
-  intro _
-  have p2 := p1.nested (ih.hook _ n .onStop (by simpa using hnt))
-  have p3 := p2.own (h' := .inited) (Ev.stop n) rfl (by simp [hookStep, Ev.id])
-  simpa [Res.ok, List.append_assoc] using p3.finishSet true
+  · simp [Res.bad]
+  · intro h
+    have p1 := p0.nested (ih.rev σ n .stop (σ.get n).kids.length (by bad_split))
+    have p2 := p1.nested (ih.hook (revLoop true true f σ n .stop (σ.get n).kids.length).σ n .onStop (by bad_split))
+    have p3 := p2.own (h' := .inited) (Ev.stop n) rfl (by simp [hookStep, Ev.id])
+    simpa [List.append_assoc] using p3.finishSet' true false
+      ((revLoop true true f σ n .stop (σ.get n).kids.length).oof || (runHook true true f (revLoop true true f σ n .stop (σ.get n).kids.length).σ n .onStop).oof)
+      ((revLoop true true f σ n .stop (σ.get n).kids.length).td || (runHook true true f (revLoop true true f σ n .stop (σ.get n).kids.length).σ n .onStop).td)
 
-theorem P.succ_cleanup {f : Nat} (ih : P f) : ∀ σ n, (σ.get n).busy = true → (bCleanup true (f + 1) σ n true).thrown = false →
-    BodyOK σ (bCleanup true (f + 1) σ n true) n := by
+theorem P.succ_cleanup {f : Nat} (ih : P f) : ∀ σ n, (σ.get n).busy = true → (bCleanup true true (f + 1) σ n true).bad = false →
+    BodyOK σ (bCleanup true true (f + 1) σ n true) n := by
   intro σ n hb
-  simp only [bCleanup]
+  simp only [bCleanup, if_true]
   split
-  · intro _; exact (Prog.start hb).finishSame true false false
+  · intro _; exact (Prog.start hb).finishSame true false false false
   rename_i hst
   split
-  · rename_i hs; intro h; rw [hs] at h; simp at h
+  · intro h; exact ih.stop σ n hb h
   rename_i hs
-  have hs : (bStop true f σ n true).thrown = false := by simpa using hs
-  have bs := ih.stop σ n hb hs
-  have p0 := Prog.ofBody bs
-  -- after doStop() the module is kInited: its state was not kNone, and doStop leaves kInited or what it found
+  have hs : (bStop true true f σ n true).thrown = false := by simpa using hs
+  have hin := bStop_inited f σ n hst hs
   split
-  · simp
-  rename_i hlt
-  have p1 := p0.nested (ih.rev _ n .cleanup _ (by simpa using hlt))
-  simp only [if_true]
+  · intro h
+    have p0 := Prog.ofBody (ih.stop σ n hb (by bad_split))
+    have p1 := p0.nested (ih.rev (bStop true true f σ n true).σ n .cleanup ((bStop true true f σ n true).σ.get n).kids.length (by bad_split))
+    exact p1.finishSame _ _ _ _
   split
-  · simp
-  rename_i hnt
-  intro _
-  have p2 := p1.nested (ih.hook _ n .onCleanup (by simpa using hnt))
-  -- the automaton must be in `inited` here
-  have hin : ((bStop true f σ n true).σ.get n).st = .inited := by
-    cases f with
-    | zero => simp [bStop, Res.outOfFuel] at hs
-    | succ f' =>
-      simp only [bStop] at hs ⊢
-      split
-      · rename_i h1
-        simp only [Res.ok]
-        cases h2 : (σ.get n).st <;> simp_all
-      · rename_i h1
-        split
-        · rename_i h2; simp [h1, h2] at hs
-        · rename_i h2
-          simp only [if_true] at hs ⊢
-          split
-          · rename_i h3; simp [h1, h2, h3] at hs
-          · simp only [Res.ok]; exact (setSt_get _ n n .inited).1.trans (by simp)
-  rw [hin] at p2
-  have p3 := p2.own (h' := .none) (Ev.cleanup n) rfl (by simp [hookStep, Ev.id])
-  simpa [Res.ok, List.append_assoc] using p3.finishSet true
+  · simp [Res.bad]
+  · intro h
+    have p0 := Prog.ofBody (ih.stop σ n hb (by bad_split))
+    have p1 := p0.nested (ih.rev (bStop true true f σ n true).σ n .cleanup ((bStop true true f σ n true).σ.get n).kids.length (by bad_split))
+    have p2 := p1.nested (ih.hook (revLoop true true f (bStop true true f σ n true).σ n .cleanup ((bStop true true f σ n true).σ.get n).kids.length).σ n .onCleanup (by bad_split))
+    rw [hin] at p2
+    have p3 := p2.own (h' := .none) (Ev.cleanup n) rfl (by simp [hookStep, Ev.id])
+    simpa [List.append_assoc] using p3.finishSet' true false _ _
 
-theorem P.succ_call {f : Nat} (ih : P f) : ∀ σ n a, (aCall true (f + 1) σ n a true).thrown = false →
-    Q σ (aCall true (f + 1) σ n a true).σ (aCall true (f + 1) σ n a true).tr := by
+theorem P.succ_call {f : Nat} (ih : P f) : ∀ σ n a, (aCall true true (f + 1) σ n a true).bad = false →
+    Q σ (aCall true true (f + 1) σ n a true).σ (aCall true true (f + 1) σ n a true).tr := by
   intro σ n a
   simp only [aCall, Bool.true_and, if_true]
   split
@@ -420,10 +556,10 @@ theorem P.succ_call {f : Nat} (ih : P f) : ∀ σ n a, (aCall true (f + 1) σ n 
       simp only [hm, if_false] at h1 h2
       exact Qm.congr h1.1.symm h1.2.symm h2.1 h2.2 (b.1 m hm)
   cases a with
-  | init => exact key _ (ih.init _ n hb1 (by simpa using hth))
-  | start => exact key _ (ih.start _ n hb1 (by simpa using hth))
-  | stop => exact key _ (ih.stop _ n hb1 (by simpa using hth))
-  | cleanup => exact key _ (ih.cleanup _ n hb1 (by simpa using hth))
+  | init => exact key _ (ih.init _ n hb1 (by simpa [Res.bad] using hth))
+  | start => exact key _ (ih.start _ n hb1 (by simpa [Res.bad] using hth))
+  | stop => exact key _ (ih.stop _ n hb1 (by simpa [Res.bad] using hth))
+  | cleanup => exact key _ (ih.cleanup _ n hb1 (by simpa [Res.bad] using hth))
 
 theorem P.all : ∀ f, P f
   | 0 => P.zero
